@@ -79,3 +79,9 @@ where
         new_vars
     }
 }
+
+// verification-only hooks (see /verif); compiled only under the guard cfg
+#[cfg(oxfordcontrol_clarabel_rs_verif)]
+pub(crate) use {
+    augment_compact::verif_hooks_ac, augment_standard::verif_hooks_as, reverse_standard::verif_hooks_rs,
+};
